@@ -35,6 +35,7 @@ ASSUMPTIONS = ["pvm/ref/inet.py implements RFC 1071 and the pseudo-headers",
                "truncated packets quoted inside ICMP errors"]
 REQUIRED = ["built", "fields_compared", "repacked", "ipv4_csums", "l4_csums",
             "icmp_csums", "odd_payloads", "even_payloads", "corpus_roundtrips",
+            "earlier_packets_rechecked",
             "v6_csums"]
 TIMEOUT = {"quick": 900, "thorough": 7200}
 
@@ -417,6 +418,9 @@ def run_built (case, rep):
           b2[max(0, i - 2):i + 8].hex()))
     return
   verify_bytes(fire, rep, b, kind)
+  # the packet parsed in the previous case of this kind is still intact?
+  recheck_alive(rep, "built:" + kind, case)
+  _alive["built:" + kind] = (q, b)
   return b
 
 
@@ -455,6 +459,10 @@ def run_corpus (case, rep):
   q2 = pkt.ethernet(raw=b2)
   compare_chains(fire, q, q2, label)
   verify_bytes(fire, rep, b2, label)
+  # every corpus packet parsed so far (q2 may share state with them)
+  for lab in sorted(_alive):
+    if lab.startswith("corpus:"): recheck_alive(rep, lab, case)
+  _alive[label] = (q, b)
   return b
 
 
@@ -464,6 +472,34 @@ CORPUS_SKIP = {"udp_nocsum", "udp_padded", "arp_reply", "icmp_unreach",
                # for C15):
                "ip6_unreach_short", "ip6_too_big_short",
                "ip6_fragment"}
+
+
+_alive = {}      # label -> (parsed packet, its bytes): objects parsed earlier
+
+
+def recheck_alive (rep, label, case):
+  """
+  A packet parsed earlier must still describe its own frame after other
+  frames have been parsed (no state shared between packet objects): packing
+  it again gives its bytes.
+  """
+  old = _alive.get(label)
+  if old is None: return
+  q, b = old
+  rep.count("earlier_packets_rechecked")
+  try:
+    b2 = q.pack()
+  except Exception as e:
+    rep.violation("C14 %s: an earlier parsed packet can no longer be packed" % label,
+                  repr(e), case); return
+  if b2 != b:
+    i = 0
+    while i < min(len(b), len(b2)) and b[i] == b2[i]: i += 1
+    rep.violation("C14 %s: an earlier parsed packet changed after later "
+                  "packets were parsed" % label,
+                  "first difference at byte %d: %s vs %s" %
+                  (i, b[max(0, i - 2):i + 8].hex(), b2[max(0, i - 2):i + 8].hex()),
+                  case)
 
 
 def do_case (case, rep):
@@ -482,7 +518,7 @@ def plan (tier, seed):
   if tier == "quick":
     return ([dict(mode="built", per=400, sub=i) for i in range(14)] +
             [dict(mode="corpus", sub=0)])
-  return ([dict(mode="built", per=2200, sub=i) for i in range(32)] +
+  return ([dict(mode="built", per=9000, sub=i) for i in range(64)] +
           [dict(mode="corpus", sub=0)])
 
 
